@@ -297,6 +297,48 @@ fn listing_part(rep: &mut Report, thorough: bool) -> (u64, u64, Vec<Value>) {
             }
         }
     }
+    // a store that went through the schema upgrade: rows written by an older version (no options
+    // column) are still leases, and the listing must show every one of them
+    {
+        let path = format!("{dir}/upgraded.sqlite");
+        let _ = std::fs::remove_file(&path);
+        clock::set_secs(NOW0 as u64);
+        let made = rusqlite::Connection::open(&path).map_err(|e| e.to_string()).and_then(|c| {
+            c.execute_batch("CREATE TABLE leases (address TEXT NOT NULL, chaddr BLOB, clientid BLOB, start INTEGER NOT NULL, expiry INTEGER NOT NULL, PRIMARY KEY (address));").map_err(|e| e.to_string())?;
+            for i in 0..5u8 {
+                c.execute("INSERT INTO leases (address, chaddr, clientid, start, expiry) VALUES (?1, ?2, ?3, ?4, ?5)", rusqlite::params![format!("10.20.1.{}", 10 + i), vec![2u8, 0, 0, 0, 1, i], vec![2u8, 0, 0, 0, 1, i], NOW0 - 100, NOW0 + 200 + i as i64]).map_err(|e| e.to_string())?;
+            }
+            Ok(())
+        });
+        match made.and_then(|_| rusqlite::Connection::open(&path).map_err(|e| e.to_string())).and_then(|c| pool::Pool::verif_with_conn(c).map_err(|e| e.to_string())) {
+            Err(e) => rep.violation(Violation::new("listing-unavailable", format!("a version-0 lease database does not open: {e}"), json!({"engine":"c20","part":"listing","store":"upgraded-v0"})).sig("part", "listing")),
+            Ok(mut p) => {
+                let rows = p.get_leases().map(|l| l.len()).unwrap_or(0);
+                match HttpRig::start(19, &format!("{LISTING_YAML}"), p) {
+                    Err(e) => rep.machinery_error(e),
+                    Ok(mut rig) => {
+                        let r = rig.get(Via::Unix, "/api/v1/leases.json");
+                        let _ = rig.stop();
+                        n += 5;
+                        let case = json!({"engine":"c20","part":"listing","store":"upgraded-v0","leases":5});
+                        match r {
+                            Err(e) => rep.violation(Violation::new("listing-unavailable", format!("GET /api/v1/leases.json failed on an upgraded store: {e}"), case).sig("part", "listing")),
+                            Ok((_, _, body)) => match serde_json::from_slice::<Value>(&body) {
+                                Err(e) => rep.violation(Violation::new("listing-not-json", format!("the listing of an upgraded store is not valid JSON: {e}"), case).sig("part", "listing")),
+                                Ok(v) => {
+                                    let got = v["leases"].as_array().map(|a| a.len()).unwrap_or(0);
+                                    classes.insert("upgraded-store".to_string());
+                                    if got != 5 || rows != 5 {
+                                        rep.violation(Violation::new("listing-entries", format!("a store written by the previous schema version holds 5 leases; after the upgrade the listing has {got} entries (get_leases: {rows})"), case).sig("part", "listing").sig("store", "upgraded"));
+                                    }
+                                }
+                            },
+                        }
+                    }
+                }
+            }
+        }
+    }
     let _ = std::fs::remove_dir_all(&dir);
     (n, classes.len() as u64, samples)
 }
@@ -324,7 +366,7 @@ pub fn run(tier: &str, replay: Option<Value>) -> ! {
     rep.cov("traces_validated_against_impl", n1 + n2);
     rep.cov("evaluations", n1 + n2);
     rep.cov("distinct_nontrivial", c1 + c2);
-    rep.cov("rule", "gauges: every lease store reachable by the exact-state search over handle_pkt (depth 3, thorough 4; plus the empty store after non-empty ones) x now in {each row's expiry -1, +0, +1}, read through GET /metrics of the real HTTP API on the real DhcpService, the first scrape after every store change with the lease store mutex held by the harness while the request is in flight; listing: one real DISCOVER per value of host-name option (every single octet, every octet between two letters, every pair of a 40-octet dangerous set -- thorough: every two-octet name and every triple of the dangerous set --, lengths 0/1/255, UTF-8 specials) and client identifier (every octet, empty, 255 octets), listing parsed by serde_json and compared entry by entry with the rows. states = distinct (row count, future count) / validity classes; transitions = gauge readings + leases listed");
+    rep.cov("rule", "gauges: every lease store reachable by the exact-state search over handle_pkt (depth 3, thorough 4; plus the empty store after non-empty ones) x now in {each row's expiry -1, +0, +1}, read through GET /metrics of the real HTTP API on the real DhcpService, the first scrape after every store change with the lease store mutex held by the harness while the request is in flight; listing: one real DISCOVER per value of host-name option (every single octet, every octet between two letters, every pair of a 40-octet dangerous set -- thorough: every two-octet name and every triple of the dangerous set --, lengths 0/1/255, UTF-8 specials) and client identifier (every octet, empty, 255 octets), listing parsed by serde_json and compared entry by entry with the rows; plus a store written by the previous schema version (5 leases, no options column) after its upgrade. states = distinct (row count, future count) / validity classes; transitions = gauge readings + leases listed");
     rep.cov("exhaustive", true);
     rep.cov("parts", json!({"gauge_readings": n1, "leases_listed": n2}));
     rep.cov("samples", s1);
